@@ -3,6 +3,7 @@
 #include <ucontext.h>
 #include <unistd.h>
 #include <cpuid.h>
+#include <sys/personality.h>
 
 SimHeap g_heap;
 SimCPU g_cpu;
@@ -250,9 +251,9 @@ void SimCPU::install() {
 
 // ================================================================== SimDirt
 __attribute__((noinline)) void dirty_stack(uint64_t pattern) {
-    volatile uint64_t buf[3072];     // 24 KiB below the caller's frame
+    volatile uint64_t buf[3072 + 8];     // 24 KiB below the caller's frame
     uint64_t x = pattern | 1;
-    for (int i = 0; i < 3072; ++i) { x = x * 6364136223846793005ULL + 1442695040888963407ULL; buf[i] = x | 0x0101010101010101ULL; }
+    for (int i = 0; i < 3072 + 8; ++i) { x = x * 6364136223846793005ULL + 1442695040888963407ULL; buf[i] = x | 0x0101010101010101ULL; }
     __asm__ volatile("" ::"r"(buf) : "memory");
 }
 
@@ -276,10 +277,15 @@ __asm__(
     ".size call_with_junk_regs,.-call_with_junk_regs\n");
 
 // ================================================================== SimMem
+static void *fixed_map(uintptr_t at, size_t size) {
+    void *p = mmap((void *)at, size, PROT_READ | PROT_WRITE, MAP_PRIVATE | MAP_ANONYMOUS | MAP_FIXED_NOREPLACE, -1, 0);
+    if (p == MAP_FAILED || p != (void *)at) { fprintf(stderr, "sim: cannot map fixed region at %lx\n", (unsigned long)at); _exit(2); }
+    return p;
+}
+static uintptr_t g_next_area = SIMHEAP_BASE + 0x10000000ULL;
 void ArgArea::init() {
     if (map) return;
-    void *p = mmap(nullptr, DATA + 8192, PROT_READ | PROT_WRITE, MAP_PRIVATE | MAP_ANONYMOUS, -1, 0);
-    if (p == MAP_FAILED) _exit(2);
+    void *p = fixed_map(g_next_area, DATA + 8192); g_next_area += 0x100000;
     map = (uint8_t *)p;
     mprotect(map, 4096, PROT_NONE);
     mprotect(map + 4096 + DATA, 4096, PROT_NONE);
@@ -315,8 +321,7 @@ bool ArgArea::verify_all(std::string *why) {
 
 void HandleArena::init() {
     if (map) return;
-    void *p = mmap(nullptr, (size_t)NSLOTS * 16384, PROT_READ | PROT_WRITE, MAP_PRIVATE | MAP_ANONYMOUS, -1, 0);
-    if (p == MAP_FAILED) _exit(2);
+    void *p = fixed_map(SIMHEAP_BASE + 0x20000000ULL, (size_t)NSLOTS * 16384);
     map = (uint8_t *)p;
     for (int s = 0; s < NSLOTS; ++s) { mprotect(map + (size_t)s * 16384, 4096, PROT_NONE); mprotect(map + (size_t)s * 16384 + 4096 + 8192, 4096, PROT_NONE); }
 }
@@ -372,4 +377,28 @@ void seams_init() {
     g_handles.init();
     SimCPU::install();
     install_crash_handlers();
+}
+
+// ================================================================== determinism of addresses
+void disable_aslr_and_reexec(char **argv) {
+    int cur = personality(0xffffffff);
+    if (cur != -1 && !(cur & ADDR_NO_RANDOMIZE) && !getenv("SIM_NO_REEXEC")) {
+        if (personality(cur | ADDR_NO_RANDOMIZE) != -1) {
+            setenv("SIM_NO_REEXEC", "1", 1);
+            execv("/proc/self/exe", argv);
+        }
+    }
+}
+
+extern "C" void sim_switch_stack_call(void *newsp, void (*fn)(void *), void *arg);
+__asm__(
+    ".text\n.globl sim_switch_stack_call\n.type sim_switch_stack_call,@function\n"
+    "sim_switch_stack_call:\n"
+    "  pushq %rbp\n  movq %rsp, %rbp\n  movq %rdi, %rsp\n  movq %rdx, %rdi\n  callq *%rsi\n  movq %rbp, %rsp\n  popq %rbp\n  ret\n"
+    ".size sim_switch_stack_call,.-sim_switch_stack_call\n");
+void run_on_sim_stack(void (*fn)(void *), void *arg) {
+    static char *stack = nullptr;
+    const size_t SZ = 4u << 20;
+    if (!stack) { stack = (char *)fixed_map(SIMHEAP_BASE + 0x40000000ULL, SZ + 8192); mprotect(stack, 4096, PROT_NONE); }
+    sim_switch_stack_call(stack + 4096 + SZ - 64, fn, arg);
 }
